@@ -212,6 +212,21 @@ def binop(self, op, a, b):
         return SymInt(r)
     if op is ast.Mult and isinstance(a, str) and isinstance(b, int):
         return a * b
+    if op is ast.LShift and isinstance(a, SymInt) and isinstance(b, int) and b >= 0:
+        return SymInt(a.t * (2 ** b))
+    if op is ast.BitOr and (isinstance(a, SymInt) or isinstance(b, SymInt)):
+        # a | b == a + b when the operands occupy disjoint bit ranges: decided by the solver
+        # (a is a multiple of 2^k and 0 <= b < 2^k for some k); anything else is unsupported
+        za, zb = zint(a), zint(b)
+        for k in (4, 8, 16, 32):
+            self.eng.queries += 1
+            self.eng.solver.push()
+            self.eng.solver.add(z3.Not(z3.And(za % (2 ** k) == 0, zb >= 0, zb < 2 ** k)))
+            ok = self.eng.solver.check() == z3.unsat
+            self.eng.solver.pop()
+            if ok:
+                return SymInt(za + zb)
+        raise Unsupported('bitwise or of symbolic ints with overlapping bit ranges')
     return _old_binop(self, op, a, b)
 
 
@@ -375,6 +390,11 @@ def call_model(self, f, args, kwargs):
             return _prev_call_model(self, f, args, kwargs)
         t = r.t
         return SymInt(z3.If(t >= 0, z3.ToInt(t), -z3.ToInt(-t)))
+    if f is chr and len(args) == 1 and isinstance(args[0], SymInt):
+        t = args[0].t
+        if not self.branch(z3.And(t >= 0, t <= 0x10FFFF)):
+            raise PyRaise(ValueError('chr() arg not in range(0x110000)'))
+        return SymStr([t])
     if f is max or f is min:
         if len(args) == 2 and not kwargs and all(isinstance(a, (int, SymInt)) for a in args):
             a, b = args
